@@ -299,6 +299,56 @@ def _guard_parallel(tree: ast.Module) -> tuple[str, str, str]:
     return pre, par, post
 
 
+def _passes_validator(stmts: list[ast.stmt]) -> tuple[int, bool]:
+    """(number of `_fetch_with_probe` calls in `stmts`, every call forwards `url_validator` unless it is None).
+
+    A call forwards it when `url_validator` is its 4th positional / a keyword argument; a call without it is only accepted as
+    the true-branch of `… if url_validator is None else …` (where the default `None` is the same thing)."""
+    calls: list[ast.Call] = []
+    excused: set[int] = set()
+    for st in stmts:
+        for n in ast.walk(st):
+            if isinstance(n, ast.Call) and isinstance(n.func, ast.Name) and n.func.id == "_fetch_with_probe":
+                calls.append(n)
+            if isinstance(n, ast.IfExp) and ast.unparse(n.test) == "url_validator is None":
+                for m in ast.walk(n.body):
+                    excused.add(id(m))
+            if isinstance(n, ast.IfExp) and ast.unparse(n.test) == "url_validator is not None":
+                for m in ast.walk(n.orelse):
+                    excused.add(id(m))
+
+    def forwards(c: ast.Call) -> bool:
+        if len(c.args) >= 4 and ast.unparse(c.args[3]) == "url_validator":
+            return True
+        return any(k.arg == "url_validator" and ast.unparse(k.value) == "url_validator" for k in c.keywords)
+
+    return len(calls), bool(calls) and all(forwards(c) or id(c) in excused for c in calls)
+
+
+def _fetch_url_attempts(tree: ast.Module) -> tuple[bool, bool, bool]:
+    """`fetch_url`: (first attempt forwards the validator, the one-retry shape is recognised, the retry forwards the validator)."""
+    fn = _func(tree, "fetch_url")
+    tries = [n for n in ast.walk(fn) if isinstance(n, ast.Try)]
+    if len(tries) != 1 or len(tries[0].handlers) != 1:
+        raise Shape("fetch_url: expected one try/except around the first attempt")
+    t = tries[0]
+    h = t.handlers[0]
+    retry_shape = (
+        h.type is not None
+        and ast.unparse(h.type) == "(aiohttp.ServerDisconnectedError, ConnectionResetError)"
+        and ast.unparse(t.body[0]) == "data = future.result()"
+        and any(isinstance(n, ast.Call) and ast.unparse(n.func) == "_reset_session" for st in h.body for n in ast.walk(st))
+    )
+    before = [st for st in fn.body if st is not t and st.lineno < t.lineno]  # type: ignore[attr-defined]
+    n1, v1 = _passes_validator(before)
+    n2, v2 = _passes_validator(list(h.body))
+    # no further attempt anywhere else (a loop, a second handler …)
+    total = sum(1 for n in ast.walk(fn) if isinstance(n, ast.Call) and isinstance(n.func, ast.Name) and n.func.id == "_fetch_with_probe")
+    if n1 == 0 or n2 == 0 or total != n1 + n2 or any(isinstance(n, (ast.For, ast.While)) for n in ast.walk(fn)):
+        raise Shape("fetch_url: attempts not recognised")
+    return v1, retry_shape, v2
+
+
 def _nat_list(xs) -> str:
     return "[" + ", ".join(str(int(x)) for x in xs) + "]"
 
@@ -396,8 +446,7 @@ def emit() -> dict[str, str]:
         and "start = i * chunk_size" in cr
         and "end = min(start + chunk_size - 1, content_length - 1)" in cr
     )
-    retry = ast.unparse(_func(tree, "fetch_url"))
-    retry_ok = "except (aiohttp.ServerDisconnectedError, ConnectionResetError):" in retry and retry.count("_fetch_with_probe(") == 4
+    first_validated, retry_ok, retry_validated = _fetch_url_attempts(tree)
 
     # ---- codec names
     from vgi_rpc._codec import Encoding
@@ -494,6 +543,9 @@ def chunkCheckRecognised : Bool := {b(chunk_ok)}
 def rangesRecognised : Bool := {b(ranges_ok)}
 /-- `fetch_url`: one retry on `ServerDisconnectedError` / `ConnectionResetError` -/
 def retryRecognised : Bool := {b(retry_ok)}
+/-- the first attempt / the retry hand the caller's `url_validator` to `_fetch_with_probe` -/
+def firstAttemptValidated : Bool := {b(first_validated)}
+def retryValidated : Bool := {b(retry_validated)}
 /-- `redact_url` = `urlunparse((scheme, rendered_host, path, "", "", ""))` with the host/port rendering the model mirrors -/
 def redactRecognised : Bool := {b(_redact_shape(tree))}
 
